@@ -12,6 +12,7 @@ What is proved:
    regenerated from constraint.cpp (`Gen/Comparators.compareConstraints`) on the key record of the state;
  * `static_satisfy_total` — from `Solver(vs, cs)`, `satisfy()` never exhausts the model's fuel (heap loops,
    the merge loop, the DFS): it returns normally or throws;
+ * `static_solve_total` — the same for `solve()` (tree traversals of `refine` included);
  * `static_satisfy_fixed_point` — a start in which every constraint holds is returned unchanged;
  * `static_satisfy_post` / `static_solve_post` — a normal return means the exit scan passed: every
    constraint has slack ≥ ZERO_UPPERBOUND at the reported positions;
@@ -41,6 +42,7 @@ import AdaptaVerif.Lemmas.VpscStatic
 import AdaptaVerif.Lemmas.VpscStaticOrder
 import AdaptaVerif.Lemmas.VpscStaticRun
 import AdaptaVerif.Lemmas.VpscStaticTotal
+import AdaptaVerif.Lemmas.VpscStaticFuel
 import AdaptaVerif.Lemmas.VpscKktOpt
 import AdaptaVerif.Props.C02Model
 import AdaptaVerif.Gen.Comparators
@@ -159,6 +161,27 @@ theorem static_satisfy_total (vs : Array (Rat × Rat × Rat)) (cs : Array Con)
   · split
     · exact Or.inl ⟨_, _, _, rfl⟩
     · exact Or.inr ⟨_, rfl⟩
+
+/-- **static_solve_total**: the same for `Solver(vs, cs); solve()` = `satisfy(); refine()`: the tree
+    traversals of `refine` stay within their fuel too — `compute_dfdv` walks a non-backtracking walk in the
+    active forest, i.e. a path of fewer than n constraints; every call of `populateSplitBlock` marks a
+    variable that was still in the old block; `mergeLeft` / `mergeRight` meet at most n owning blocks.  The
+    result is a normal return or the throw of the exit scan, never "out of fuel" (all n, m, data, graphs).
+    So NO theorem about a normal return of the static solver's model is vacuous for lack of fuel. -/
+theorem static_solve_total (vs : Array (Rat × Rat × Rat)) (cs : Array Con)
+    (hv : ∀ c ∈ cs, c.l < vs.size ∧ c.r < vs.size ∧ c.unsat = false) :
+    (∃ s pos ret, (SSt.init vs cs).solve = (s, .ok pos ret)) ∨ (∃ s, (SSt.init vs cs).solve = (s, .threw)) := by
+  have hb := AdaptaVerif.Lemmas.VpscStaticFuel.init_solve_total vs cs hv
+  cases hr : (SSt.init vs cs).solve with
+  | mk s o =>
+    cases o with
+    | ok pos ret => exact Or.inl ⟨s, pos, ret, rfl⟩
+    | threw => exact Or.inr ⟨s, rfl⟩
+    | outOfFuel =>
+      exfalso
+      have := AdaptaVerif.Lemmas.VpscStaticFuel.solve_outcome_bad (SSt.init vs cs) (by rw [hr])
+      rw [hb] at this
+      cases this
 
 /-- **static_satisfy_fixed_point**: if every constraint already holds at the start (`Solver(vs, cs)` places
     every variable at its desired position), `satisfy()` merges nothing and returns those positions: a feasible
